@@ -247,8 +247,9 @@ def s_for(draw, entries_list, style, minT, maxT):
 
 def durations(style):
     if style == "grid":
-        return st.integers(1, 40).map(lambda k: k / 8)
-    return gen.dec_time(max_int=5).filter(lambda d: d > 0)
+        # also durations far below any sliver threshold (2**-30 s): still an insertion, and exact on the grid
+        return st.one_of(st.integers(1, 40).map(lambda k: k / 8), st.integers(1, 40).map(lambda k: k / 8), st.sampled_from([2.0 ** -30, 2.0 ** -27]))
+    return st.one_of(gen.dec_time(max_int=5).filter(lambda d: d > 0), gen.dec_time(max_int=5).filter(lambda d: d > 0), st.sampled_from([4e-9, 2.5e-10]))
 
 
 @st.composite
